@@ -181,16 +181,18 @@ def main(check_name, tier, replay=None):
             base = {"map": {}}
         base = dict(base)
         base["map"] = {**base["map"], **base_b["map"]}
-    base_c = findings.load_baseline(mod.BASELINE + ".C", canon) if getattr(mod, "BASELINE", None) else None
-    if base_c is not None and not baseline_mode:
-        from vf import universe_c
+    from vf.checks import parserlevel as _PL
 
-        if base_c["universe_hash"] != universe_c.content_hash():
-            inconclusive.append(f"baseline {mod.BASELINE}.C was built for universe {base_c['universe_hash']}, current is {universe_c.content_hash()}")
-        if base is None:
-            base = {"map": {}}
-        base = dict(base)
-        base["map"] = {**base["map"], **base_c["map"]}
+    for g in ("C", "D"):
+        base_g = findings.load_baseline(mod.BASELINE + "." + g, canon) if getattr(mod, "BASELINE", None) else None
+        if base_g is not None and not baseline_mode:
+            gh = _PL.GROUP_MODULES[g].content_hash()
+            if base_g["universe_hash"] != gh:
+                inconclusive.append(f"baseline {mod.BASELINE}.{g} was built for universe {base_g['universe_hash']}, current is {gh}")
+            if base is None:
+                base = {"map": {}}
+            base = dict(base)
+            base["map"] = {**base["map"], **base_g["map"]}
 
     # witnesses of listed findings are replayed first (same worker code path)
     witness_items = []
@@ -215,10 +217,10 @@ def main(check_name, tier, replay=None):
             from vf import universe_b
 
             bname, uh = mod.BASELINE + ".B", universe_b.content_hash()
-        if group == "C":
-            from vf import universe_c
+        if group in ("C", "D"):
+            from vf.checks import parserlevel as _PL2
 
-            bname, uh = mod.BASELINE + ".C", universe_c.content_hash()
+            bname, uh = mod.BASELINE + "." + group, _PL2.GROUP_MODULES[group].content_hash()
         findings.save_baseline(bname, uh, repo_rev(), case_sig, meta={"evals": m["evals"], "counters": m["counters"]})
         # propose known-finding entries: one per atomic mechanism, shortest witness
         by_atom = {}
